@@ -123,7 +123,7 @@ func refDerefTarget(src string) refPathState {
 	if last == "" || last == "." || last == ".." {
 		last = "x"
 	}
-	return refPathState{root: true, elems: []refElem{{name: "dt"}, {name: last, keys: map[string]string{"id": "7"}}, {name: "tgt"}}}
+	return refPathState{root: true, elems: []refElem{{name: "dt"}, {name: last, keys: map[string]string{"id": "fe80::7:1"}}, {name: "tgt"}}}
 }
 
 func (r *refNav) eval(n *xp.Node, outer *refPathState) xp.Val {
